@@ -159,6 +159,10 @@ type deepArr [1]any
 
 func (e deepArr) Error() string { return fmt.Sprint("deepArr ", e[0]) }
 
+// nilWrap: a VALUE type that embeds *gerror.GError; its zero value implements gerror.Error by
+// promotion although there is no record behind it (not a nil pointer itself).
+type nilWrap struct{ *gerror.GError }
+
 // hostileSource: errors.Is(e, x) with such an e runs e's own Is/Unwrap (panics, loops forever or
 // answers arbitrarily): these rows of the matrix are not evaluated (code 7).
 func hostileSource(kind string) bool {
@@ -172,7 +176,9 @@ func hostileSource(kind string) bool {
 // typedNilGerror: nil pointers of gerror types.  They implement gerror.Error, so Convert returns
 // them unchanged; the generators do not pass them to Convert (in the model they are foreign
 // values: comparable, without methods).
-func typedNilGerror(kind string) bool { return kind == "nilgerr" || kind == "nilext" }
+func typedNilGerror(kind string) bool {
+	return kind == "nilgerr" || kind == "nilext" || kind == "nilwrap"
+}
 
 type embedder interface{ Emb() *gerror.GError }
 
@@ -274,6 +280,8 @@ func (w *world) mkForeign(k int, d foreignDesc) {
 		e, g = deepErr{d.Text}, "VF 200 true "+contentID(d.Text)+" VNil"
 	case "nilgerr": // a typed-nil *GError: implements gerror.Error, none of its fields exists
 		e, g = (*gerror.GError)(nil), "VF 50 true 0 VNil"
+	case "nilwrap": // struct{ *GError }{}: a gerror.Error by promotion, no record behind it
+		e, g = nilWrap{}, "VF 51 true 0 VNil"
 	case "nilext": // a typed-nil pointer to a generated extension type (only as target: the
 		// promoted-method wrappers the compiler generates dereference it before gerror runs)
 		e, g = (*ExtA)(nil), "VF 104 true 0 VNil"
@@ -683,7 +691,11 @@ var words = []string{"", "a", "b", "x y", " pad ", "%d", "é世", "tag", "svc:fn
 func randRoots(r *rand.Rand) []rootDesc {
 	var roots []rootDesc
 	add := func(kind string, isfac bool) {
-		roots = append(roots, rootDesc{Kind: kind, Name: "Err" + strconv.Itoa(len(roots)), Msg: pick(r, words),
+		name := "Err" + strconv.Itoa(len(roots))
+		if r.IntN(3) == 0 { // factories of different services that chose the same name (identity is the value, not the Name)
+			name = pick(r, []string{"ErrNotFound", "ErrInternal", ""})
+		}
+		roots = append(roots, rootDesc{Kind: kind, Name: name, Msg: pick(r, words),
 			Src: pick(r, []string{"", "", "preset"}), IsFac: isfac})
 	}
 	for i, n := 0, 1+r.IntN(3); i < n; i++ {
@@ -706,7 +718,7 @@ func randForeign(r *rand.Rand) []foreignDesc {
 	fs := []foreignDesc{{Kind: "new", Text: "one"}, {Kind: "new", Text: "one"}}
 	kinds := []string{"new", "wrap", "ptr", "nilptr", "slice", "slice", "map", "val", "val", "wrap",
 		"nilderef", "nilderef", "panicerr", "holder", "ispanic", "istrue", "selfwrap", "unwrappanic",
-		"deepstruct", "deepstruct", "deeparr", "deepok", "nilgerr", "nilext"}
+		"deepstruct", "deepstruct", "deeparr", "deepok", "nilgerr", "nilext", "nilwrap"}
 	for i, n := 0, 2+r.IntN(7); i < n; i++ {
 		k := pick(r, kinds)
 		d := foreignDesc{Kind: k, Text: pick(r, []string{"p", "q"})}
@@ -849,6 +861,19 @@ func corpus(out *gal.Out) {
 			emit(out, "corpus", roots, ce, ops)
 		}
 	}
+	// factories that are indistinguishable by their fields: equal Name, Message and Source across
+	// FactoryOf base, bare base and two factories of each extension type; every one gets
+	// derivations; errors.Is must still tell them apart (identity is the factory value)
+	same := []rootDesc{{Kind: "base", Name: "ErrNotFound", Msg: "m", IsFac: true}, {Kind: "base", Name: "ErrNotFound", Msg: "m", IsFac: true},
+		{Kind: "base", Name: "ErrNotFound", Msg: "m"}, {Kind: "exta", Name: "ErrNotFound", Msg: "m", IsFac: true},
+		{Kind: "exta", Name: "ErrNotFound", Msg: "m", IsFac: true}, {Kind: "extb", Name: "ErrNotFound", Msg: "m", IsFac: true},
+		{Kind: "extb", Name: "ErrNotFound", Msg: "m", IsFac: true}}
+	var sameOps []opDesc
+	for i := range same {
+		sameOps = append(sameOps, op(i, "Msg"), op(i, "Stack"))
+	}
+	sameOps = append(sameOps, conv(0, "Convert", 0), conv(3, "Convert", 0), conv(5, "ConvertS", 0), op(8, "DTag"), op(14, "Base"))
+	emit(out, "corpus", same, []foreignDesc{{Kind: "new", Text: "one"}, {Kind: "nilwrap"}, {Kind: "nilgerr"}}, sameOps)
 	// the repository's TestExtendedError_Equality shape, on every kind of factory
 	emit(out, "corpus", base, fs, []opDesc{op(0, "Stack"), op(0, "Stack"), op(1, "Stack"), op(2, "Stack"), op(2, "Stack"),
 		op(3, "Msg"), conv(2, "Convert", 0), conv(3, "Convert", 3), conv(0, "Convert", 4)})
